@@ -307,6 +307,14 @@ func (c *ctx) apply(o op) (ok bool) {
 		msg := pattern(20+o.arg, c.tagCtr+5)
 		var err error
 		nsrc, ndst := l.dst, l.src
+		if o.arg == 2 {
+			// a reply too big for any buffer is refused and leaves the frame as it is.
+			if err := l.f.Reply(nil, make([]byte, 70000), nil); err == nil {
+				c.bad("oversize-reply-accepted", "Reply with a 70000-byte message returned no error")
+				return false
+			}
+			return true
+		}
 		if o.arg == 0 {
 			err = l.f.Reply(nil, msg, nil)
 		} else {
@@ -403,7 +411,7 @@ func (c *ctx) apply(o op) (ok bool) {
 func TestC17(t *testing.T) {
 	env := kit.GetEnv()
 	rep := kit.NewReport("C17", env)
-	rep.Rule = "all operation sequences up to depth D over {new(6-12 sizes around every pooled tier), parse(i), clone(i), reply/replyTo(i), set-appendix(i, 6-10 lengths incl. 0, tier-crossing, 10000, 10001), mutate(i), set-link(i,2 links), release(i)} with <= 3 live frames on one shared real builder; after every op every live frame is compared byte-for-byte and field-for-field with the shadow model; non-trivial = the sequence contains a release followed by a new/parse/clone (buffer reuse) or a clone followed by a modification; distinct = distinct op sequence"
+	rep.Rule = "all operation sequences up to depth D over {new(6-12 sizes around every pooled tier), parse(i), clone(i), reply/replyTo(i) and a refused oversize reply(i), set-appendix(i, 6-10 lengths incl. 0, tier-crossing, 10000, 10001), mutate(i), set-link(i,2 links), release(i)} with <= 3 live frames on one shared real builder; after every op every live frame is compared byte-for-byte and field-for-field with the shadow model; non-trivial = the sequence contains a release followed by a new/parse/clone (buffer reuse) or a clone followed by a modification; distinct = distinct op sequence"
 	rep.Assumptions = []string{
 		"sync.Pool reuse is made deterministic by GOMAXPROCS(1) and GC off; a gate at start verifies that a released frame object and slice are actually handed out again",
 		"frames are parsed the way the link reader parses them (pooled slice, frame at the link offset)",
@@ -453,7 +461,7 @@ func TestC17(t *testing.T) {
 			alphabet = append(alphabet, op{kParse, i, 2})
 		}
 		for i := 0; i < 3; i++ {
-			alphabet = append(alphabet, op{kParse, i, 0}, op{kClone, i, 0}, op{kReply, i, 0}, op{kReply, i, 1}, op{kMutate, i, 0}, op{kSetLink, i, 0}, op{kSetLink, i, 1}, op{kRelease, i, 0})
+			alphabet = append(alphabet, op{kParse, i, 0}, op{kClone, i, 0}, op{kReply, i, 0}, op{kReply, i, 1}, op{kReply, i, 2}, op{kMutate, i, 0}, op{kSetLink, i, 0}, op{kSetLink, i, 1}, op{kRelease, i, 0})
 			for _, a := range apxLens {
 				alphabet = append(alphabet, op{kSetApx, i, a})
 			}
